@@ -25,33 +25,27 @@ func (u *NonRawRegexPattern) Fix(fc *FixCandidate, opts *RuntimeOptions) ([]FixR
 	fileChanged := false
 
 	for _, loc := range opts.Locations {
-		if loc.Row-1 < 0 || loc.Row-1 >= len(lines) {
+		if loc.Row < 1 || loc.Row > len(lines) {
 			continue
 		}
 
-		line := []rune(lines[loc.Row-1])
-		startIdx := loc.Column - 1
-		endIdx := loc.End.Column - 2
+		line := lines[loc.Row-1]
 
-		if startIdx < 0 || endIdx > len(line) || startIdx >= endIdx {
+		// columns are counted in characters, not bytes
+		start, ok := byteIndexOfColumn(line, loc.Column)
+		if !ok || line[start] != '"' {
 			continue
 		}
 
-		if line[startIdx] == '"' {
-			line[startIdx] = '`'
-			fileChanged = true
+		end, ok := rawConvertibleStringEnd(line, start)
+		if !ok {
+			continue
 		}
 
-		if line[endIdx] == '"' {
-			line[endIdx] = '`'
-			fileChanged = true
-		}
+		pattern := strings.ReplaceAll(line[start+1:end], `\\`, `\`)
 
-		// Replace "\\" with "\" between startIdx and endIdx
-		segment := strings.ReplaceAll(string(line[startIdx:endIdx]), `\\`, `\`)
-		replacement := []rune(segment)
-
-		lines[loc.Row-1] = string(append(line[:startIdx], append(replacement, line[endIdx:]...)...))
+		lines[loc.Row-1] = line[0:start] + "`" + pattern + "`" + line[end+1:]
+		fileChanged = true
 	}
 
 	if !fileChanged {
@@ -65,4 +59,28 @@ func (u *NonRawRegexPattern) Fix(fc *FixCandidate, opts *RuntimeOptions) ([]FixR
 		Root:     opts.BaseDir,
 		Contents: newContents,
 	}}, nil
+}
+
+// rawConvertibleStringEnd returns the index of the closing quote of the interpreted string literal
+// starting at line[start]. The end of the literal is found by scanning, as the end column of a
+// location can't be trusted to be counted in characters. Literals containing a backtick, or any
+// escape sequence but the escaped backslash, have no raw string with the same value on one line,
+// and are reported as not convertible.
+func rawConvertibleStringEnd(line string, start int) (int, bool) {
+	for i := start + 1; i < len(line); i++ {
+		switch line[i] {
+		case '"':
+			return i, true
+		case '`':
+			return 0, false
+		case '\\':
+			if i+1 >= len(line) || line[i+1] != '\\' {
+				return 0, false
+			}
+
+			i++
+		}
+	}
+
+	return 0, false
 }
